@@ -13,6 +13,32 @@ CHECKS = {
          "the Go code by a differential correspondence (verdict, match count, error set) on generated schema/instance pairs; every "
          "code-vs-specification disagreement must be attributed to a listed known finding by flipping its switch in the model.",
          "Lean 4 proof (mutual structural induction over schemas) + differential correspondence with switch attribution", "DESIGN.md §6 C01"),
+ "C04": ("Kernel-checked theorem that pools handing back arbitrary used objects are invisible to every client program keeping the "
+         "ownership discipline (simulation proof over free-monad programs, arbitrary chooser and stale contents), theorem that the validator "
+         "tree's redeem protocol redeems every object exactly as often as it borrows it for every tree shape, slot script and panic point, and "
+         "decide-obligations on tables regenerated from the source (constructors overwrite every field, cleared() resets every field, slots "
+         "are released before the child runs, no read after merge, one Put per Redeem, empty result guarded). Tie: random call histories "
+         "through persistent pools with scribble-on-redeem vs. each call alone, and replay of the borrow/redeem trace in the Lean ownership "
+         "machine. Partial: 'nothing is touched after its redeem' is static table + sampled histories, not a theorem over the Go source.",
+         "Lean 4 proof (simulation; mutual induction over validator trees) + regenerated fact tables + history correspondence with scribbling", "DESIGN.md §6 C04"),
+ "C05": ("Kernel-checked theorem that any number of disciplined threads over one shared pool, under every schedule and pool choice, each get "
+         "the result they get alone (interleaving as a woven program + frame lemmas + the C04 simulation), the C15 cache theorems, and "
+         "decide-obligations on regenerated tables (default options only touched under their mutex, cache written copy-on-write under "
+         "the lock, long-lived validators write only their own slots). Tie: goroutine programs on the real code built with -race, "
+         "scribbling on, every outcome compared with the solo outcome. Partial: the Go memory model, sync.Pool, atomic.Value and "
+         "sync.Mutex are assumed to behave as modelled; a model cannot exhibit a hardware-level race.",
+         "Lean 4 proof (interleaving independence) + regenerated fact tables + -race stress correspondence", "DESIGN.md §6 C05"),
+ "C11": ("Kernel-checked theorem: with child slots released before the child runs (a fact regenerated from the source), no object is "
+         "redeemed more often than it is borrowed for every validator tree, slot script and panic point; with C04's recycling_invisible "
+         "later validations are then as in a fresh process. decide-witness of the double redeem under the old order. Tie: histories with a "
+         "format checker panicking at its k-th invocation, recovery, and comparison of every later call with a fresh run, plus trace replay.",
+         "Lean 4 proof (redeem protocol with panic point) + panic-injection history correspondence", "DESIGN.md §6 C11"),
+ "C15": ("Kernel-checked invariant over every schedule of every number of threads stepping through compileRegexp/cacheRegexp: every "
+         "cached entry belongs to its key, a call returns the expression of the pattern it asked for or reports it invalid exactly when it "
+         "is, entries are never lost (lock + load inside it); decide-obligation that the source has the modelled shape (keys, lock, "
+         "copy-on-write). Tie: single- and multi-goroutine pattern histories on the real code (built with -race) against Go's regexp "
+         "compiled from the same pattern, and an audit of the cache snapshot.",
+         "Lean 4 proof (invariant over interleavings) + regenerated shape facts + regexp differential", "DESIGN.md §6 C15"),
  "C06": ("No-panic part of the C01 theorem for in-vocabulary schemas, decide-witness of the (fixed) out-of-range index, and the no-panic "
          "oracle checked directly on the real code over a malformed-schema stream with every option combination (incl. json.Number); "
          "the model's panic flag is compared with the code's. Partial: panics inside go-openapi/spec, swag and reflect are outside the model; "
